@@ -10,7 +10,7 @@ case "${1:-}" in
     [ -d $M/repo ] || git -C /repo worktree add -q --detach $M/repo HEAD
     git -C $M/repo checkout -q --detach "$(git -C /repo rev-parse HEAD)"
     rsync -a --exclude target --exclude 'corpus-run' --exclude artifacts /verif/ $M/verif/
-    sed -i "s|path = \"/repo\"|path = \"$M/repo\"|" $M/verif/harness/Cargo.toml $M/verif/harness-nostd/Cargo.toml $M/verif/fuzz/Cargo.toml
+    sed -i "s|path = \"/repo\"|path = \"$M/repo\"|" $M/verif/harness/Cargo.toml $M/verif/harness-nostd/Cargo.toml $M/verif/harness-nolegacy/Cargo.toml $M/verif/fuzz/Cargo.toml
     echo "scratch ready at $M";;
   sync)
     rsync -a --exclude target --exclude 'corpus-run' --exclude artifacts --exclude Cargo.toml /verif/ $M/verif/
